@@ -1,0 +1,14 @@
+//go:build verif
+
+package lazy
+
+// VerifHook, when set, is called before a memoised computation takes its sync.Once.
+// It exists only under the verif build tag (the lazy package cannot import fp, so it
+// carries its own hook variable); used by the deterministic simulator in /verif.
+var VerifHook func(op string)
+
+func verifYield(op string) {
+	if h := VerifHook; h != nil {
+		h(op)
+	}
+}
